@@ -144,6 +144,75 @@ def setitemVectorMask2D (h : Heap) (v mask data : View2D) : Except Err Heap :=
 
 /-! ## FixedMatrix -/
 
+/-- packed branch of `setitem_array1d_mask`: `data[z++]` for every selected `(i,j)`, `j`-major -/
+def packLoop2D (v mask : View2D) (data : View) : List (Nat × Nat) → Nat → Heap → Except Err Heap
+  | [], _, h => .ok h
+  | (i, j) :: rest, z, h =>
+    match mask.get h i j with
+    | .error e => .error e
+    | .ok m =>
+      if m != 0 then
+        match data.get h z with
+        | .error e => .error e
+        | .ok x =>
+          match v.set h i j x with
+          | .error e => .error e
+          | .ok h' => packLoop2D v mask data rest (z + 1) h'
+      else packLoop2D v mask data rest z h
+
+/-- `setitem_array1d_mask`: a 1-D right-hand side of `lenX*lenY` elements (read at `z = j*lenX + i`) or of exactly
+    the number of selected elements (read in order) -/
+def setitemArray1DMask (h : Heap) (v mask : View2D) (data : View) : Except Err Heap :=
+  match matchDimension2D v mask.lenX mask.lenY with
+  | .error e => .error e
+  | .ok (lx, ly) =>
+    if data.length = lx * ly then
+      forLoop2 (fun j i h =>
+        match mask.get h i j with
+        | .error e => .error e
+        | .ok m =>
+          if m != 0 then
+            match data.get h (j * lx + i) with
+            | .ok x => v.set h i j x
+            | .error e => .error e
+          else .ok h) ly lx h
+    else
+      match mapE (fun p => mask.get h p.1 p.2) (pairsJI lx ly) with
+      | .error e => .error e
+      | .ok bits =>
+        if data.length ≠ (bits.filter (· != 0)).length then .error .srcDimMismatch
+        else packLoop2D v mask data (pairsJI lx ly) 0 h
+
+/-- `ifelse_vector`: `choice(i,j) ? (*this)(i,j) : other(i,j)` into a fresh array -/
+def ifelseVector2D (h : Heap) (v choice other : View2D) : Except Err (Heap × View2D) :=
+  match matchDimension2D v choice.lenX choice.lenY with
+  | .error e => .error e
+  | .ok (lx, ly) =>
+    match matchDimension2D v other.lenX other.lenY with
+    | .error e => .error e
+    | .ok _ =>
+      match mapE (fun p => (
+          match choice.get h p.1 p.2 with
+          | .error e => .error e
+          | .ok c => if c != 0 then v.get h p.1 p.2 else other.get h p.1 p.2 : Except Err Int)) (pairsJI lx ly) with
+      | .error e => .error e
+      | .ok vals => .ok (alloc2D h lx ly vals)
+
+/-- `ifelse_scalar` -/
+def ifelseScalar2D (h : Heap) (v choice : View2D) (other : Int) : Except Err (Heap × View2D) :=
+  match matchDimension2D v choice.lenX choice.lenY with
+  | .error e => .error e
+  | .ok (lx, ly) =>
+    match mapE (fun p => (
+        match choice.get h p.1 p.2 with
+        | .error e => .error e
+        | .ok c => if c != 0 then v.get h p.1 p.2 else .ok other : Except Err Int)) (pairsJI lx ly) with
+    | .error e => .error e
+    | .ok vals => .ok (alloc2D h lx ly vals)
+
+/-- `__len__` = `totalLen()` = `_size` -/
+def View2D.totalLen (v : View2D) : Nat := v.lenX * v.lenY
+
 /-- data members of `FixedMatrix<T>` -/
 structure MatView where
   buf : Nat
